@@ -8,7 +8,7 @@ PROP = [  # (substring of the commit subject, property ids)
     ("affine_translation keeps complex", "C16"), ("composite Transformation.eigenvector", "C16"),
     ("svd_kernel conjugates", "C16 (also C18)"), ("svd_kernel returns an empty basis", "C16 (also C18)"),
     ("o_to_pgl recovers", "C17"), ("linear_matrix_action / sln_linear_action accept arrays", "C17"),
-    ("unit_tangent_towards", "C12 (also C13)"), ("Subspace.sphere_parameters", "C14"),
+    ("unit_tangent_towards lost accuracy", "C13 (also C12)"), ("unit_tangent_towards", "C12 (also C13)"), ("Subspace.sphere_parameters", "C14"),
     ("Hyperplane built from an array", "C15"), ("TangentVector.angle", "C13"), ("arc_include", "C14 (also C18)"),
     ("__setitem__ recomputes", "C11"), ("combine concatenates", "C11"),
     ("diagonalize_form(reverse=True)", "C18"), ("spacelike_to completes", "C02 (also C15, C18)"),
